@@ -72,7 +72,22 @@ func init() {
 	}
 }
 
+// hashEpochCheck resets the per-path hash records when a new path starts.
+func (in *interpreter) hashEpochCheck() {
+	if ep, _ := in.tmp["hashEpoch"].(int); ep != in.pathNo {
+		in.tmp["hashEpoch"] = in.pathNo
+		for k := range in.tmp {
+			if len(k) > 5 && k[:5] == "hash:" {
+				delete(in.tmp, k)
+			}
+		}
+		in.tmp["hashInvocations"] = 0
+	}
+}
+
 func (in *interpreter) uninterpHash(kind string, input []value, n int) []value {
+	in.hashEpochCheck()
+	in.tmp["hashInvocations"] = asIntAny(in.tmp["hashInvocations"]) + 1
 	allc := true
 	for _, b := range input {
 		if _, ok := b.(uint8); !ok {
@@ -103,16 +118,6 @@ func (in *interpreter) uninterpHash(kind string, input []value, n int) []value {
 		panic(mergeAbort{"uninterpreted hash in arm"})
 	}
 	calls, _ := in.tmp["hash:"+kind].([]hashCall)
-	// the per-path call list is reset in runPath via hashEpoch
-	if ep, _ := in.tmp["hashEpoch"].(int); ep != in.pathNo {
-		in.tmp["hashEpoch"] = in.pathNo
-		for k := range in.tmp {
-			if len(k) > 5 && k[:5] == "hash:" {
-				delete(in.tmp, k)
-			}
-		}
-		calls = nil
-	}
 	c := in.ctx
 	for _, pc := range calls {
 		if len(pc.in) == len(input) {
@@ -180,4 +185,75 @@ func init() {
 		in.noteRange(cell)
 		return iface{typesNewPointer(dt), &cell[0]}
 	}
+}
+
+func nativeDigest(kind string, bs []byte) []byte {
+	if kind == "sha224" {
+		s := sha256.Sum224(bs)
+		return s[:]
+	}
+	s := sha256.Sum256(bs)
+	return s[:]
+}
+
+// refineHashModel turns a counterexample found under the uninterpreted-hash model into one that
+// holds for the real hash: the inputs of every hash call on the path are fixed to their values in
+// the model, the outputs to the real digest of those inputs, and the violated assertion is asked
+// again.  If that is unsatisfiable another candidate (different hash inputs) is tried, a bounded
+// number of times.  Returns the refined model, or ok=false if none was found (the caller then
+// reports the unrefined model, which the native replay will not reproduce).
+func (in *interpreter) refineHashModel(neg *Term, m map[string]uint64) (map[string]uint64, bool) {
+	in.hashEpochCheck()
+	type rec struct {
+		kind string
+		c    hashCall
+	}
+	var recs []rec
+	for k, v := range in.tmp {
+		if len(k) > 5 && k[:5] == "hash:" {
+			for _, hc := range v.([]hashCall) {
+				recs = append(recs, rec{k[5:], hc})
+			}
+		}
+	}
+	if len(recs) == 0 {
+		return m, true
+	}
+	c := in.ctx
+	block := c.True // excludes the hash inputs already tried
+	for try := 0; try < 12; try++ {
+		memo := map[int]uint64{}
+		fix := c.True
+		same := c.True
+		for _, r := range recs {
+			bs := make([]byte, len(r.c.in))
+			for i, b := range r.c.in {
+				switch b := b.(type) {
+				case uint8:
+					bs[i] = b
+				case *Term:
+					k, _ := evalTerm(b, m, memo)
+					bs[i] = byte(k)
+					same = c.And(same, c.Eq(b, c.Const(8, k&0xff)))
+				}
+			}
+			d := nativeDigest(r.kind, bs)
+			for i, o := range r.c.out {
+				if t, ok := o.(*Term); ok {
+					fix = c.And(fix, c.Eq(t, c.Const(8, uint64(d[i]))))
+				}
+			}
+		}
+		res, m2 := in.solver.Check(in.pc, c.And(neg, c.And(block, c.And(same, fix))), true)
+		if res == Sat {
+			return m2, true
+		}
+		block = c.And(block, c.Not(same))
+		res, m3 := in.solver.Check(in.pc, c.And(neg, block), true)
+		if res != Sat {
+			return m, false
+		}
+		m = m3
+	}
+	return m, false
 }
